@@ -23,6 +23,7 @@ func Run(ctx *core.Ctx) {
 	LiteralFamily(ctx)
 	SpecialFamily(ctx)
 	FloatTextFamily(ctx)
+	NaNFamily(ctx)
 	RandomTraces(ctx, ctx.Pick(4000, 150000))
 	ctx.Extra["closed_expressions_also_evaluated_standalone"] = evalChecked
 }
